@@ -471,6 +471,56 @@ FACTORIES = [
 ]
 
 
+def _const_str(e: ast.AST, mod=None) -> Optional[str]:
+    """value of a string expression built from literals (`'pygradflow.step.' + 'exact_control'`, `"." + "lu_solver"`, f-strings of literals,
+    an element of a module-level tuple of literals)"""
+    if isinstance(e, ast.Constant) and isinstance(e.value, str):
+        return e.value
+    if mod is not None and ((isinstance(e, ast.Call) and isinstance(e.func, ast.Name) and e.func.id == "__item__" and len(e.args) == 2)
+                            or (isinstance(e, ast.Subscript) and isinstance(e.slice, ast.Constant))):
+        base, idx = (e.args[0], e.args[1]) if isinstance(e, ast.Call) else (e.value, e.slice)
+        if isinstance(base, ast.Name) and isinstance(idx, ast.Constant) and isinstance(idx.value, int):
+            for st in mod.tree.body:
+                v = st.value if isinstance(st, (ast.Assign, ast.AnnAssign)) else None
+                tg = (st.targets[0] if isinstance(st, ast.Assign) and len(st.targets) == 1 else getattr(st, "target", None)) if v is not None else None
+                if isinstance(tg, ast.Name) and tg.id == base.id and isinstance(v, (ast.Tuple, ast.List)) and idx.value < len(v.elts):
+                    return _const_str(v.elts[idx.value], mod)
+    if isinstance(e, ast.BinOp) and isinstance(e.op, ast.Add):
+        a, b = _const_str(e.left, mod), _const_str(e.right, mod)
+        return a + b if a is not None and b is not None else None
+    if isinstance(e, ast.JoinedStr):
+        parts = []
+        for v in e.values:
+            if isinstance(v, ast.Constant):
+                parts.append(str(v.value))
+            elif isinstance(v, ast.FormattedValue) and _const_str(v.value) is not None and v.format_spec is None:
+                parts.append(_const_str(v.value))
+            else:
+                return None
+        return "".join(parts)
+    return None
+
+
+def _class_by_name_lookup(prog: Program, f: FuncInfo, e: ast.AST) -> Optional[ClassInfo]:
+    """`getattr(importlib.import_module(<literal module name>[, package]), <literal class name>)` is that class (lazy imports of
+    optional back ends written as a table of names)"""
+    if not (isinstance(e, ast.Call) and dotted(e.func) == "getattr" and len(e.args) == 2):
+        return None
+    mod_e, cls_name = e.args[0], _const_str(e.args[1], f.module)
+    if cls_name is None or not (isinstance(mod_e, ast.Call) and (dotted(mod_e.func) or "").endswith("import_module") and mod_e.args):
+        return None
+    mname = _const_str(mod_e.args[0], f.module)
+    if mname is None:
+        return None
+    if mname.startswith("."):
+        pkg = f.module.name if getattr(f.module, "is_pkg", False) else f.module.name.rsplit(".", 1)[0]
+        mname = pkg + mname
+    mod = prog.modules.get(mname)
+    if mod is None:
+        return None
+    return mod.classes.get(cls_name)
+
+
 def dispatch(prog: Program, rep) -> None:
     for fq, eq, _ in FACTORIES:
         f = prog.func(fq)
@@ -489,6 +539,9 @@ def dispatch(prog: Program, rep) -> None:
             local_var = isinstance(v.func, ast.Name) and any(isinstance(n_, ast.Name) and n_.id == v.func.id and isinstance(n_.ctx, ast.Store) for n_ in own_nodes(f.node))
             if any(isinstance(t, ClassInfo) for t in tgt) and not local_var:
                 sites.append((r, dotted(v.func) or ""))
+            elif isinstance(v.func, ast.Name) and _class_by_name_lookup(prog, f, ff.resolved(r, v.func)) is not None:
+                # the class looked up by module and class NAME (importlib + getattr on literals): that class
+                sites.append((r, _class_by_name_lookup(prog, f, ff.resolved(r, v.func)).name))
             elif isinstance(v.func, ast.Name) and isinstance(ff.resolved(r, v.func), (ast.Name, ast.Attribute)) \
                     and isinstance(prog.resolve_expr_static(f.module, ff.resolved(r, v.func)), ClassInfo):
                 # `cls = C` in this very branch, then `return cls(..)`: the return is the selection site
@@ -578,7 +631,16 @@ def dispatch(prog: Program, rep) -> None:
     sym = prog.lookup_method(symc, "linear_solver")
     if sym is None:
         raise AnalysisError("SymmetricStepSolver.linear_solver has vanished")
-    calls = [x for x in own_nodes(sym.node) if isinstance(x, ast.Call) and dotted(x.func) == "linear_solver"]
+    fsym = facts_for(sym)
+
+    def is_factory_call(x):
+        if not isinstance(x, ast.Call):
+            return False
+        if dotted(x.func) == "linear_solver":
+            return True
+        si_ = fsym.stmt_of(x)       # the factory bound to a local / reached through its module first
+        return si_ is not None and (U(fsym.resolved(si_.stmt, x.func)) or "").split(".")[-1] == "linear_solver" and not is_self_attr(x.func)
+    calls = [x for x in own_nodes(sym.node) if is_factory_call(x)]
     kv = kwarg(calls[0], "symmetric") if len(calls) == 1 else None
     ok = isinstance(kv, ast.Constant) and kv.value is True
     if not ok and is_self_attr(kv):
